@@ -1,15 +1,35 @@
 #!/bin/sh
-# Offline setup: generate the os overlay, warm the Go build cache with one harness binary, parse every spec module.
+# Offline setup: generate the os overlay, warm the Go build cache with the harness binaries, parse the spec modules.
 set -e
 cd "$(dirname "$0")"
 export GOFLAGS=-mod=mod GOPROXY=off GOSUMDB=off GOTOOLCHAIN=local
 python3 tools/osovl/gen.py build/osovl
 python3 - <<'PY'
-import sys, os, glob
+import sys, os, glob, json
 sys.path.insert(0, "lib")
 import vlib
-vlib.build_bin("c31")
+failed = []
+for d in sorted(os.listdir("harness/cmd")):
+    if d == "probe":
+        continue
+    try:
+        vlib.build_bin(d)
+    except Exception as e:           # a broken command only affects its own check
+        failed.append(d)
+        print("setup: WARNING build of harness/cmd/%s failed: %s" % (d, str(e)[-300:]))
+try:
+    vlib.build_cli()
+except Exception as e:
+    print("setup: WARNING CLI build failed: %s" % str(e)[-300:])
+bad = []
 for f in sorted(glob.glob("spec/*.tla")):
-    vlib.sany(os.path.basename(f)[:-4])
+    m = os.path.basename(f)[:-4]
+    try:
+        vlib.sany(m)
+    except Exception as e:
+        bad.append(m)
+print("setup: modules not parsed stand-alone (need generated or proof-system modules): %s" % bad)
+if "c31" in failed or "fsops" in failed:
+    sys.exit("setup: core harness commands do not build")
 print("setup ok")
 PY
